@@ -6,6 +6,9 @@ pub mod c05;
 pub mod c06;
 pub mod c07;
 pub mod c11;
+pub mod c12;
+pub mod c14;
+pub mod c17;
 pub mod c18;
 pub mod c20;
 pub mod histchecks;
@@ -13,7 +16,7 @@ pub mod histchecks;
 use crate::frame::CheckDef;
 
 pub fn all() -> Vec<CheckDef> {
-    let mut v = vec![c01::def(), c02::def(), c03::def(), c04::def(), c05::def(), c06::def(), c07::def(), c11::def(), c18::def(), c20::def()];
+    let mut v = vec![c01::def(), c02::def(), c03::def(), c04::def(), c05::def(), c06::def(), c07::def(), c11::def(), c12::def(), c14::def(), c17::def(), c18::def(), c20::def()];
     v.extend(histchecks::defs());
     v.sort_by_key(|d| d.property);
     v
